@@ -12,6 +12,8 @@ C02.e  [flow] registry.requested is invalid at every return.
 C02.f  [cmp] in the substitution loops a request is dropped without consulting guards only if it is identical to the
        accepted transition (origin, destination, method, payload presence, payload bytes).
 C02.g  [effect] only the four request writers and request processing write the request slot.
+C02.i  [path] once the substitution loop is left nothing on the way to the return writes the request slot: a request left over by the
+       limit is carried to the next processing point (shared as C04.d).
 C02.h  [loop] processing continues while a request is outstanding up to the *configured* substitution limit and stops no earlier
        (shares C04.a: the loop bound is the constant of the configuration type the machine was instantiated with, and equals the
        limit the witness machine was declared with).
@@ -88,14 +90,30 @@ def request_slot_writers(run, F, E, rule='C02.g'):
         for root in F.find('R_', root_name):
             for g, _ in anchors.substitution_loops(F, E, root):
                 allowed.add(tk_short(g))
-    for fn in F.fns:
-        direct = set()
+    # what a function writes itself or through callees that are not themselves expected writers (a helper of another class -- say a
+    # member of the core that clears the slot -- is looked through, so that its callers are the ones judged)
+    memo = {}
+
+    def own_writes(fn, depth=0):
+        if fn.id in memo:
+            return memo[fn.id]
+        memo[fn.id] = set()
+        out = set()
         for e in ir.all_exprs(fn):
             if e['k'] == 'asg':
-                direct |= E.lv(e['l'], fn)
+                out |= E.lv(e['l'], fn)
         for e, g in E.call_sites(fn):
             if e['k'] == 'call' and ir.is_expr(e.get('obj')) and (e.get('op') == '=' or e.get('m') in ('operator=', 'clear')):
-                direct |= E.lv(e['obj'], fn)
+                out |= E.lv(e['obj'], fn)
+            if g is not None and g.body is not None and depth < 6 and tk_short(g) not in allowed and g.tkey == 'ffsm2::detail::CoreT' and g.kind != 'ctor':
+                for p in own_writes(g, depth + 1):
+                    out |= E.reroot(p, e, fn)
+        memo[fn.id] = out
+        return out
+    for fn in F.fns:
+        if fn.tkey == 'ffsm2::detail::CoreT':
+            continue          # members of the core are judged through their callers (above)
+        direct = own_writes(fn)
         if not any(p[:2] == ('core', 'request') for p in direct):
             continue
         if fn.kind == 'ctor' and fn.tkey == 'ffsm2::detail::CoreT':
@@ -104,6 +122,72 @@ def request_slot_writers(run, F, E, rule='C02.g'):
         if not ok and (anchors.is_internal_helper(F, fn) or (fn.cls is None and (fn.qn or '').startswith('ffsm2::detail::'))):
             ok = not anchors.reached_only_from(F, E, fn, allowed) and bool(E.callers().get(fn.id))
         run.ob(rule, '%s is an expected writer of the request slot' % fn.short, ok, where=fn.pat, key='%s writes the request slot' % fn.short)
+
+
+def node_may_writes(F, E, fn, n):
+    """paths a CFG node may write: its own assignment / increment, or -- for a call / construction -- the callee's write summary
+    translated to the caller's roots"""
+    out = set()
+    e = n.e
+    if not ir.is_expr(e):
+        return out
+    if n.kind == 'write':
+        tgt = e['l'] if e['k'] == 'asg' else e.get('e')
+        if ir.is_expr(tgt):
+            out |= E.lv(tgt, fn)
+    if n.kind in ('call', 'ctor') and e.get('fn') is not None:
+        g = F.fn(e['fn'])
+        if g is not None:
+            for p in E.writes_star(g):
+                out |= E.reroot(p, e, fn)
+    return out
+
+
+def leftover_request_survives(run, F, E, rule='C02.i'):
+    """a request that is still outstanding when processing stops (the substitution limit was reached) is carried to the next
+    processing point: once the substitution loop is left, nothing on the way to the return writes the request slot -- neither in the
+    function that owns the loop nor in the functions it was called through"""
+    for root_name in ('processRequest', 'initialEnter'):
+        for root in F.find('R_', root_name):
+            owners = anchors.substitution_loops(F, E, root)
+            if len(owners) != 1:
+                raise AnalysisBroken('R_::%s: expected one substitution loop, found %d' % (root_name, len(owners)))
+            owner = owners[0][0]
+            chain = []
+            if owner.id != root.id:
+                chain = anchors.chain_to(F, E, root, lambda g: g.id == owner.id)
+                if chain is None:
+                    raise AnalysisBroken('R_::%s does not reach %s' % (root_name, owner.short))
+            oc = cfgmod.cfg_of(owner)
+            in_loop_calls = [x for x in oc.events(('call',)) if x.e.get('m') == 'applyRequest' and oc.in_loop(x)]
+            if not in_loop_calls:
+                raise AnalysisBroken('%s applies requests outside a loop' % owner.short)
+            chain = list(chain) + [(owner, oc, in_loop_calls[0])]
+            bad = []
+            for level, (fn, c, n) in enumerate(chain):
+                heads = c.in_loop(n) if level == len(chain) - 1 else []
+                inside = set()
+                for h in heads:
+                    inside |= c.loop_body(h)
+                reach = c.reachable()
+                start = [x for x in c.nodes if x.id in inside and x.id in reach] if heads else [n]
+                seen = set(inside) | ({n.id} if not heads else set())
+                work = [s_ for x in start for (s_, _) in x.succ if s_.id not in seen]
+                after = []
+                while work:
+                    x = work.pop()
+                    if x.id in seen:
+                        continue
+                    seen.add(x.id)
+                    after.append(x)
+                    work.extend(s_ for (s_, _) in x.succ)
+                for x in after:
+                    ws = [p for p in node_may_writes(F, E, fn, x) if effects.touches(p, ('core', 'request'))]
+                    if ws:
+                        bad.append('%s: %s' % (fn.short, ir.pp(x.e)[:70]))
+            run.ob(rule, 'R_::%s: after the substitution loop nothing writes the request slot (%d level(s) of calls looked through)' % (root_name, len(chain)),
+                   not bad, where=root.pat, detail=bad[:3] or None,
+                   key='a request left over when R_::%s stops at the substitution limit is overwritten or dropped' % root_name)
 
 
 def requested_writers(run, F, E):
@@ -253,6 +337,7 @@ def run(run):
             run.count('fact units')
             run.guard('request writers', request_writers, run, F, E)
             run.guard('request slot writers', request_slot_writers, run, F, E)
+            run.guard('leftover request survives', leftover_request_survives, run, F, E)
             run.guard('requested writers', requested_writers, run, F, E)
             run.guard('immediate', immediate, run, F, E)
             run.guard('drop condition', drop_condition, run, F)
@@ -271,6 +356,7 @@ def run(run):
             cfgmod.clear_cache()
     run.relabel('C04.a', 'C02.h')
     run.floor('C02.h', 30)
+    run.floor('C02.i', 8)
     run.floor('C02.a', 60)
     run.floor('C02.g', 30)
     run.floor('C02.b', 40)
